@@ -77,11 +77,12 @@ def _check_chunk(chunk):
                         fails.append((fn, args, outs, (float(rr), float(ri)), float(err), float(allowed), "accuracy"))
                 continue
             x, y = args[0], outs[0]
-            if fn in LOOPF and not (x == 0 or 1e-14 <= x <= 1e12 or -1e12 <= x <= -1e-14):
-                continue      # outside the quantifier's domain (denormals, is_zero window)
+            if fn in LOOPF and not (x == 0 or 1e-14 <= x <= 1e12 or -1e12 <= x < 0):
+                continue      # outside the quantifier's domain (positive denormals .. 1e-14)
             if x < 0 and fn in LOOPF:
                 if not math.isnan(y):
-                    fails.append((fn, args, outs, "nan", 0.0, 0.0, "negative-not-nan"))
+                    # "a negative argument yields NaN": every negative double, also inside the is_zero window
+                    fails.append((fn, args, outs, "nan", 0.0, 0.0, "negative-not-nan" + (":|x|<2.3e-15" if x > -2.3e-15 else "")))
                 continue
             if x == 0:
                 if fn in AT0:
@@ -107,13 +108,29 @@ def _check_chunk(chunk):
                 tol = 4 * 2.0 ** -52      # documented values at 1/4 and 1
             allowed = tol * abs(ref) + mpf(2) ** -1073   # + one denormal ulp of the result
             rel = float(err / abs(ref)) if ref != 0 else float(err)
-            if err > allowed:
+            if err > allowed and fn == "clausen_2":
+                # The argument is an exact double, so inside the first period nothing is inherited from the
+                # argument: pure 1e-13.  Beyond it every double-precision implementation reduces by a rounded
+                # 2 pi: k periods shift the argument by k |2 pi - fl(2 pi)| = k 2.45e-16 (x2 margin), plus one
+                # rounding of the reduced argument; that error times |Cl2'| = |log|2 sin(x/2)|| is allowed.
+                with ff_ref.prec(60):
+                    k = int(abs(mpf(x)) / (2 * mpmath.pi))
+                    d = -mpmath.log(abs(2 * mpmath.sin(mpf(x) / 2)))
+                    cond = (2 * k * mpf("2.45e-16") + mpf("4.5e-16")) * abs(d) if k >= 1 else 0
+                    xr = abs(mpf(x)) - 2 * k * mpmath.pi          # reduced argument in [0, 2 pi)
+                    where = "at-fl(2pi)" if abs(x) == 6.283185307179586 else "near-0" if xr < 1 else "near-pi" if abs(xr - mpmath.pi) <= 1 else "near-2pi" if xr > 2 * mpmath.pi - 1 else "mid"
+                    # size class: the error expressed as an error of the argument (err / |Cl2'|)
+                    ae = err / abs(d) if d != 0 else mpf(1)
+                    cls = "argerr<1e-18" if ae < mpf("1e-18") else "argerr<1e-15" if ae < mpf("1e-15") else "argerr<1e-12" if ae < mpf("1e-12") else "argerr>=1e-12"
+                if err > allowed + cond:
+                    fails.append((fn, args, outs, float(ref), float(err), float(allowed + cond),
+                                  "accuracy:%s:%s:%s" % ("first-period" if k == 0 else "|x|>=2pi", where, cls)))
+                rel = 0.0
+            elif err > allowed:
                 # error inherited from rounding the argument: 16 ulp * |x f'(x)|
                 with ff_ref.prec(60):
                     f = ff_ref.ONE_ARG[fn]
-                    if fn == "clausen_2":
-                        d = -mpmath.log(abs(2 * mpmath.sin(mpf(x) / 2)))
-                    elif fn == "dilog":
+                    if fn == "dilog":
                         d = -mpmath.log(abs(1 - mpf(x))) / mpf(x)
                     else:
                         h = mpf(x) * mpf(2) ** -30
@@ -137,8 +154,12 @@ def seeds_for(fn, K, W, kstep, lits):
                 s.update(harvest.ulps(v, 2))
                 s.update(harvest.rel_offsets(v, kstep=kstep))
         s = {v for v in s if v == 0 or 1e-14 <= v <= 1e12}
-        # negatives: mirrored decade lattice (is_zero window (-2.2e-15,0) excluded)
+        # negatives: mirrored decade lattice, and the window below the is_zero threshold (10 eps = 2.2e-15) down to
+        # the smallest denormal
         s.update(-v for v in harvest.loglattice(min(K, 4), -14, 12))
+        s.update(-v for v in harvest.loglattice(1, -323, -15))
+        s.update(-v for v in harvest.ulps(10 * 2.220446049250313e-16, 2))
+        s.update((-5e-324, -2.2250738585072014e-308, -1e-15, -2.2e-15, -2.3e-15, -3e-15))
         return sorted(s)
     # dilog / clausen: all finite reals
     s = {0.0}
@@ -151,6 +172,11 @@ def seeds_for(fn, K, W, kstep, lits):
         for k in range(1, 65):
             s.update(harvest.ulps(k * math.pi / 2, min(W, 8)))
             s.update(harvest.ulps(-k * math.pi / 2, 2))
+        # both sides of the zeros of Cl2 at pi, 2 pi, ... at relative distances 2^-k (the reflections there
+        # are exact only if pi is carried to more than double precision)
+        for k in (1, 2, 3, 4, 7):
+            for v in harvest.rel_offsets(k * math.pi, kstep=kstep):
+                s.update((v, -v))
     else:
         for v in (-1.0, 0.5, 1.0, 2.0):
             s.update(harvest.ulps(v, min(W, 8)))
@@ -247,7 +273,7 @@ def run(ctx):
                 if kind == "oracle":
                     raise RuntimeError("oracle failed on %s%r: %s" % (fn, args, ref))
                 x = args[0]
-                key = key_for(fn, x) if kind == "accuracy" else "%s:%s" % (fn, kind)
+                key = key_for(fn, x) + kind[len("accuracy"):] if kind.startswith("accuracy") else "%s:%s" % (fn, kind)
                 ctx.fail(key, "%s(%s) = %r, definition gives %r (|err| %.3e > allowed %.3e) [%s]"
                          % (fn, ", ".join(repr(a) for a in args), outs, ref, err, allowed, kind),
                          {"fn": fn, "args": [hexf(a) for a in args], "outs": [hexf(o) for o in outs], "kind": kind})
@@ -259,7 +285,7 @@ def run(ctx):
     ctx.assumptions += [
         "mpmath (pure python) polylog/clsin/log at >=50 digits is the definition oracle",
         "values strictly between lattice points inside one regime are not evaluated",
-        "negative arguments inside (-2.2e-15,0) are outside the claim (is_zero window)"]
+        "positive arguments below 1e-14 (denormals .. 1e-14) are outside the quantifier"]
     return ctx.finish(
         "seeds: log lattice K=%d/decade on [1e-14,1e12] + {0,1/4,1} + source literals/rationals with ulp and 1+-2^-k offsets; "
         "signature-bisected regime boundaries with +-%d ulp neighbourhoods; distinct = (function, branch-path signature)" % (K, W),
